@@ -370,12 +370,12 @@ class Parser:
         it and to move the result into dest.
         """
         code_gen = code_gen or self._code_gen
-        if self._current_token.content == '{':
+        if self._current_token.is_mark('{'):
             return self.next_token() and self._rvalue_curly(dest, code_gen)
-        if self._current_token.content == '[':
+        if self._current_token.is_mark('['):
             return self._rvalue_fn_call(dest, code_gen)
         move_inst = OpCode.MOVE
-        uminus = self._current_token.content == '-'
+        uminus = self._current_token.is_mark('-')
         if uminus:
             self.next_token()
         value = self._current_constant()
@@ -400,7 +400,7 @@ class Parser:
                 return self.token_error('Unknown: "{}"')
         elif self._current_token.is_a(TokenTypes.REGISTER):
             value = self._current_reg()
-        elif self._current_token.content == 'not':
+        elif self._current_token.is_a(TokenTypes.NOT):
             return self._rvalue_not(dest, code_gen)
         else:
             return self.token_error('Cannot use {} as a value.')
@@ -550,7 +550,7 @@ class Parser:
         return self.next_token()
 
     def _call_routine(self) -> bool:
-        if str(self._current_token) == '[':
+        if self._current_token.is_mark('['):
             self.next_token()
             bracketed = True
         else:
